@@ -248,9 +248,9 @@ func (r *c16Run) runCase(cp *c16Program, id int) {
 			c01KeepMessages = true
 		}
 	})
-	wmOff := c16RunImpl(fgOff, text, true, maps)
+	wmOff := c16RunImpl(c01FgOff, text, true, maps)
 	wmOn := c16RunImpl(c01FgOn, text, true, maps)
-	plOff := c16RunImpl(fgOff, textQ, false, maps)
+	plOff := c16RunImpl(c01FgOff, textQ, false, maps)
 	plOn := c16RunImpl(c01FgOn, textQ, false, maps)
 	toks1, a1, err1 := c16Parse(text, true)
 	toks2, a2, err2 := c16Parse(textQ, false)
